@@ -95,6 +95,17 @@ func runDLHistory(hi int, h hmap) {
 		ue.DLCount.Set(uint16(p>>8), uint8(p))
 	}
 	drops, wraps, delivered, excluded := 0, 0, 0, 0
+	// messages the UE has recovered stay what they were: the last few are looked at again after
+	// every later delivery (a recovered message that shares memory with a receive buffer changes
+	// under the UE's feet when the next message arrives)
+	type heldMsg struct {
+		got, want *libnas.Message
+		oi        int
+		kind      string
+	}
+	var held []heldMsg
+	// the procedure's receive buffer, reused for every message as the emulator's procedures do
+	rx := make([]byte, 4096)
 	for oi, ov := range list(h, "ops") {
 		op := ov.(hmap)
 		sht := uint8(num(op, "sht", 2))
@@ -115,8 +126,8 @@ func runDLHistory(hi int, h hmap) {
 		if sht == 0 {
 			pkg = plain
 		} else {
-			if sht == 3 || sht == 4 {
-				next = 0
+			if retx, _ := op["retx"].(bool); (sht == 3 || sht == 4) && !retx {
+				next = 0 // the AMF takes the new context into use; a retransmission of that message (retx) goes on counting
 			}
 			count = next
 			inner := plain
@@ -133,7 +144,8 @@ func runDLHistory(hi int, h hmap) {
 			}
 			next = (count + 1) & 0xffffff
 		}
-		if b, _ := op["drop"].(bool); b && sht != 0 && sht != 3 && sht != 4 {
+		forced, _ := op["force_drop"].(bool)
+		if b, _ := op["drop"].(bool); b && sht != 0 && ((sht != 3 && sht != 4) || forced) {
 			drops++
 			continue // lost on the way: the UE never sees this sequence number
 		}
@@ -145,7 +157,10 @@ func runDLHistory(hi int, h hmap) {
 				{ID: ngap.IDNASPDU, Crit: ngap.Reject, Val: ngap.EncOctetString(pkg)},
 			}}
 			enc, _ := pdu.Encode()
-			dec, derr := libngap.Decoder(enc)
+			// the emulator's flow: Read into the procedure's receive buffer (reused from one message to
+			// the next), ngap.Decoder on recvMsg[:n], GetNasPdu on the decoded DownlinkNASTransport
+			n := copy(rx, enc)
+			dec, derr := libngap.Decoder(rx[:n])
 			if derr != nil || dec.InitiatingMessage == nil || dec.InitiatingMessage.Value.DownlinkNASTransport == nil {
 				fail("dl.ngap", "the DownlinkNASTransport carrying the message does not decode: %v", derr)
 				continue
@@ -167,6 +182,18 @@ func runDLHistory(hi int, h hmap) {
 			if !reflect.DeepEqual(got.GmmMessage, want.GmmMessage) || !reflect.DeepEqual(got.GsmMessage, want.GsmMessage) {
 				ge, _ := got.PlainNasEncode()
 				fail("dl.message", "recovered message differs from the one the AMF protected (%s, %d octets): re-encodes as %x, sent %x", str(msg, "kind"), len(plain), ge, plain)
+			}
+		}
+		for _, hm := range held {
+			if !reflect.DeepEqual(hm.got.GmmMessage, hm.want.GmmMessage) || !reflect.DeepEqual(hm.got.GsmMessage, hm.want.GsmMessage) {
+				ge, _ := hm.got.PlainNasEncode()
+				fail("dl.message-changed-later", "the %s message recovered at op %d was correct then and has changed after this delivery: it now re-encodes as %x", hm.kind, hm.oi, ge)
+			}
+		}
+		if got != nil {
+			held = append(held, heldMsg{got, want, oi, str(msg, "kind")})
+			if len(held) > 3 {
+				held = held[1:]
 			}
 		}
 		if sht != 0 {
